@@ -61,6 +61,10 @@ def fork_call(fn, timeout=None):
         try:
             os.close(r)
             try:
+                os.setpgid(0, 0)        # own process group: every descendant can be removed at the end
+            except OSError:
+                pass
+            try:
                 payload = pickle.dumps(('ok', fn()), protocol=pickle.HIGHEST_PROTOCOL)
             except BaseException:
                 payload = pickle.dumps(('error', traceback.format_exc()))
@@ -84,6 +88,16 @@ def fork_call(fn, timeout=None):
             out = ('error', 'child exited without a result')
     finally:
         os.close(r)
+        # the run is over (or timed out): remove it together with everything it started - zygote,
+        # evaluators, simulated workers, and any process the code under test forked itself
+        for target in (pid,):
+            try:
+                os.killpg(target, signal.SIGKILL)
+            except OSError:
+                try:
+                    os.kill(target, signal.SIGKILL)
+                except OSError:
+                    pass
         try:
             os.waitpid(pid, 0)
         except OSError:
